@@ -151,13 +151,13 @@ def run(tier):
         rec.add(can)
         rej, st = tlc.validate_trace(os.path.join(SPEC, "Trace_Bec2.tla"), TCFG, rec.events, os.path.join(wd, "tr"), shards=16, timeout=1500)
         ids = {x[1]: x for x in rej}
-        if can["tid"] not in ids:
-            raise MachineryError("binding self-test: corrupted wrap event accepted")
         byid = {e["tid"]: e for e in rec.events}
         for tid, x in ids.items():
             if tid != can["tid"]:
                 e = byid[tid]
                 rep.violation("C08:%s:%s" % (e["op"], x[2].split(":")[0]), "container event rejected by the specification: %s" % x[2], e)
+        if can["tid"] not in ids and not rep.violations:
+            raise MachineryError("binding self-test: corrupted wrap event accepted")
         nraise = sum(1 for e in rec.events if e.get("kind") == "raise")
         rep.add_trace("Trace_Bec2 (c08.wrap / c08.unwrap of the real encryptors, all lengths 0..253, every CRC byte value)", st,
                       len(rec.events) - 1, extra={"unwrap_rejections_observed": nraise, "crc_search_tries": tries})
